@@ -524,29 +524,34 @@ class Output:
 # --------------------------------------------------------- Hilbert-consistent ownership
 
 
-def hilbert_owner(tree, bound_key):
-    """RAMSES ownership in 3-D: an oct belongs to the cpu whose [bound_key[i], bound_key[i+1])
-    contains the Hilbert key, at resolution 2^(levelmax+1), of its father cell's centre."""
-    from .hilbert import hilbert3d
+def cell_key(ndim, levelmax, level, coords):
+    """RAMSES cmp_cpumap: Hilbert key (resolution 2^(levelmax+1) per axis) of the centre of cell
+    (level, coords); the curve is hilbert1d / hilbert2d / hilbert3d according to ndim."""
+    from .hilbert import hilbert1d, hilbert2d, hilbert3d
 
-    assert tree.ndim == 3
-    L = tree.levelmax
-    bits = L + 1
+    bits = levelmax + 1
+    size = 2 ** (bits - level)
+    ijk = [int((x + 0.5) * size) for x in coords]
+    if ndim == 1:
+        return hilbert1d(ijk[0], bits)
+    if ndim == 2:
+        return hilbert2d(ijk[0], ijk[1], bits)
+    return hilbert3d(ijk[0], ijk[1], ijk[2], bits)
+
+
+def owner_of_key(key, bound_key):
+    for i in range(len(bound_key) - 1):
+        if bound_key[i] <= key < bound_key[i + 1]:
+            return i
+    return len(bound_key) - 2
+
+
+def hilbert_owner(tree, bound_key):
+    """RAMSES ownership: an oct belongs to the cpu whose [bound_key[i], bound_key[i+1]) contains
+    the Hilbert key of its father cell's centre."""
     owner = {}
     for (lev, p) in tree.all_octs():
-        # father cell (lev-1, p); centre in units of the finest key grid 2^bits
-        if lev - 1 == 0:
-            # RAMSES: level-1 octs of the coarse cell: key of the coarse cell centre
-            ix = iy = iz = 2 ** (bits - 1)
-        else:
-            size = 2 ** (bits - (lev - 1))  # father cell width on the key grid
-            ix, iy, iz = (int((x + 0.5) * size) for x in p)
-        key = hilbert3d(ix, iy, iz, bits)
-        cpu = None
-        for i in range(len(bound_key) - 1):
-            if bound_key[i] <= key < bound_key[i + 1]:
-                cpu = i
-        owner[(lev, p)] = cpu if cpu is not None else len(bound_key) - 2
+        owner[(lev, p)] = owner_of_key(cell_key(tree.ndim, tree.levelmax, lev - 1, p), bound_key)
     return owner
 
 
